@@ -26,7 +26,7 @@ Definition by_grant_assertion (i : input) : bool :=
 Definition model (i : input) : observed :=
   let other := if by_grant_assertion i then None else names_other_client (i_pres i) in
   match authenticate (i_router i) (i_endpoint i) (i_cfg i)
-          (match other with Some vm => victim_reg vm | None => i_reg i end)
+          (match other with Some v => victim_reg v | None => i_reg i end)
           (eff_pres (i_pres i)) (i_pl i) (i_grant i) (own_artefact (i_pres i)) with
   | Granted => ORes S2 ENone (issues_token (i_endpoint i)) (has_effect (i_endpoint i))
                     (match other with Some _ => WOther | None => WSelf end)
@@ -109,9 +109,9 @@ Definition refusal_shape (ep : endpoint) (s : stclass) (e : ecode) (tok act : bo
   && match ep with EToken => oauth_code e | _ => true end.
 
 (* the request carries the id of a second client Y, registered with that method *)
-Definition victim_of (p : pres) : option amethod :=
+Definition victim_of (p : pres) : option victim :=
   match p with
-  | PXBasic vm | PXAssert vm | PXPost vm | PXPostId vm | PXDup vm => Some vm
+  | PXBasic v | PXAssert v | PXPost v | PXPostId v | PXDup v => Some v
   | _ => None
   end.
 (* ... in the slot that names the client (Basic before form; of two client_id values the last) *)
@@ -124,7 +124,7 @@ Definition names_other (p : pres) : bool :=
    public clients and on revocation; a device code for any known Y registered for the grant) *)
 Definition other_justified (i : input) : bool :=
   match victim_of (i_pres i) with
-  | Some vm => justified (mkInput (i_router i) (i_endpoint i) (i_cfg i) (victim_reg vm) PIdOnly
+  | Some v => justified (mkInput (i_router i) (i_endpoint i) (i_cfg i) (victim_reg v) PIdOnly
                                   (i_grant i) (i_pl i) (i_prev i))
   | None => false
   end.
